@@ -481,12 +481,24 @@ func c16Paired(p *Prog, r *Report) {
 			du = resolveFree(du, d.inFn, mc)
 		}
 	}
+	// a deferred call evaluates its arguments when it is registered; a URL that is instead read inside the
+	// deferred routine (a forwarding method given the request, a closure reading req.URL) is read when that
+	// routine runs — after the wrapped handler, which replaces req.URL
+	if isDefer {
+		late := false
+		if in, ok := du.(ssa.Instruction); ok && in.Parent() != fn {
+			late = true
+		}
+		r.Check(!late, "C16.R3", name+": the URL of the deferred notification is evaluated at registration", p.InstrPos(d.in), "the URL handed to the deferred notification is a value of ServeHTTP itself",
+			"the URL of the 'disconnected' notification is read when the deferred call runs, after the wrapped handler may have replaced the request's URL: 'connected' and 'disconnected' are reported for different URLs")
+	}
 	same := sameArg(c.url, du) || BuildExpr(p, c.url, nil).String() == BuildExpr(p, du, nil).String()
 	r.Check(same, "C16.R3", name+": both notifications carry the same URL", p.InstrPos(d.in), "same URL expression in both notifications", "the two notifications are sent for different URL values")
 }
 
 func mutantsC16() []Mutant {
 	return []Mutant{
+		{Name: "deferred-url-read-late", File: "forward/middlewares.go", Old: "\tdefer s.stateListener(req.URL, StateDisconnected)\n", New: "\tdefer func() { s.stateListener(req.URL, StateDisconnected) }()\n", Expect: "C16.R3"},
 		{Name: "swap-502-504", File: "utils/handler.go", Old: "\t\t\tstatusCode = http.StatusGatewayTimeout\n\t\t} else {\n\t\t\tstatusCode = http.StatusBadGateway", New: "\t\t\tstatusCode = http.StatusBadGateway\n\t\t} else {\n\t\t\tstatusCode = http.StatusGatewayTimeout", Expect: "C16.R1"},
 		{Name: "drop-errorhandler", File: "forward/fwd.go", Old: "\t\tErrorHandler: utils.DefaultHandler.ServeHTTP,\n", New: "", More: []Edit{{"forward/fwd.go", "\t\"github.com/vulcand/oxy/v2/utils\"\n", ""}}, Expect: "C16.R2"},
 		{Name: "undefer-disconnected", File: "forward/middlewares.go", Old: "\tdefer s.stateListener(req.URL, StateDisconnected)\n\n\ts.next.ServeHTTP(rw, req)\n", New: "\ts.next.ServeHTTP(rw, req)\n\ts.stateListener(req.URL, StateDisconnected)\n", Expect: "C16.R3"},
